@@ -10,7 +10,7 @@ CONSTANTS
   Hints = {"-", "struct"}
   TMenu = {"ghosts"}
   MMenu = {"map", "ghost_d", "parent0", "literal", "pattern", "type_hint", "where_clause", "children", "child_parents", "bogus"}
-  FixedTraits = <<>>
+  FixedTraits <- NoTraits
   SpellAll = FALSE
   TCps = {"-", "A"}
   MCps = {"-", "A", "Z"}
